@@ -87,9 +87,9 @@ def solve_steps(rng, steps, kind, even_matrix=False):
     steps.append({"op": "matmul", "in": ["A", "xs"], "out": ["Axs"], "args": {}})
     steps.append(rel("same", "C11.solve.satisfies", "Axs", "b"))
     steps.append({"op": "observe", "in": ["A", "b", "xs"], "out": ["oso"], "args": {"what": "solve"}})
-    if kind == "abelian" or even_matrix:
-        # (fermionic: for a matrix of even parity; odd-parity matrices are the known finding F15)
-        steps.append(rel("same", "C12.solve.equals_dense_solution", "xs", "x0"))
+    # (the matrices are invertible on their stored sectors: the solution is the vector the right-hand side was made from,
+    # labels included - for odd-parity fermionic matrices since the repair of F15)
+    steps.append(rel("same", "C12.solve.equals_dense_solution", "xs", "x0"))
     if kind == "abelian":
         steps.append({"op": "observe", "in": ["A", "b", "xs"], "out": ["osd"], "args": {"what": "solution"}})
 
